@@ -1,4 +1,4 @@
-import GlmVerif.Sem.Field
+import GlmVerif.Sem.Guard
 import GlmVerif.Spec.Basic
 
 /-!
@@ -30,13 +30,16 @@ theorem Unit.out_of_leafOuts {u : Unit} {l : List E} (h : u.leafOuts = some l) (
 
 /-- what a passed table entry gives: the unit is decision-free and each checked component passes -/
 theorem Family.okAt_elim {f : Family} {look : String → List Nat → Unit} (h : f.ok look = true)
-    {ks : List Nat} (hks : ks ∈ f.keys) :
+    (htm : f.treeMode = false) {ks : List Nat} (hks : ks ∈ f.keys) :
     ∃ l, (look f.unit ks).leafOuts = some l ∧
       (∀ i, (look f.unit ks).out i = .leaf (l.getD i (.lit 0 1))) ∧
       ∀ j < f.nOut ks, f.compOK ks (fun i => l.getD i (.lit 0 1)) j = true := by
   simp only [Family.ok, List.all_eq_true] at h
   have := h ks hks
   unfold Family.okAt at this
+  rw [Bool.and_eq_true] at this
+  replace this := this.2
+  rw [if_neg (by simpa using htm)] at this
   split at this
   · simp at this
   · rename_i l hl
@@ -44,10 +47,10 @@ theorem Family.okAt_elim {f : Family} {look : String → List Nat → Unit} (h :
     exact ⟨l, hl, Unit.out_of_leafOuts hl, this.2⟩
 
 theorem Family.outE_eq {f : Family} {look : String → List Nat → Unit} (h : f.ok look = true)
-    {ks : List Nat} (hks : ks ∈ f.keys) :
+    (htm : f.treeMode = false) {ks : List Nat} (hks : ks ∈ f.keys) :
     (∀ i, (look f.unit ks).out i = .leaf ((look f.unit ks).outE i)) ∧
     ∀ j < f.nOut ks, f.compOK ks (look f.unit ks).outE j = true := by
-  obtain ⟨l, _, h2, h3⟩ := Family.okAt_elim h hks
+  obtain ⟨l, _, h2, h3⟩ := Family.okAt_elim h htm hks
   have : (look f.unit ks).outE = fun i => l.getD i (.lit 0 1) := by
     funext i; simp [Unit.outE, h2 i]
   rw [this]; exact ⟨h2, h3⟩
@@ -55,57 +58,194 @@ theorem Family.outE_eq {f : Family} {look : String → List Nat → Unit} (h : f
 variable {f : Family} {look : String → List Nat → Unit}
 
 theorem Family.poly_sound {R : Type} [CommRing R] {o : Ops R} (ho : RingLike o)
-    (h : f.ok look = true) (hk : f.kind = .poly)
+    (h : f.ok look = true) (htm : f.treeMode = false) (hk : f.kind = .poly)
     {ks : List Nat} (hks : ks ∈ f.keys) {j : Nat} (hj : j < f.nOut ks) (env : Nat → R) :
     (f.post ks (look f.unit ks).outE j).eval o env = (f.spec ks j).eval o env := by
-  have := (Family.outE_eq h hks).2 j hj
-  simp only [Family.compOK, hk] at this
+  have := (Family.outE_eq h htm hks).2 j hj
+  simp only [Family.compOK, Family.leafOK, hk] at this
   exact polyEq_sound' ho this env
 
 theorem Family.syn_sound {α : Type} (o : Ops α)
-    (h : f.ok look = true) (hk : f.kind = .syn)
+    (h : f.ok look = true) (htm : f.treeMode = false) (hk : f.kind = .syn)
     {ks : List Nat} (hks : ks ∈ f.keys) {j : Nat} (hj : j < f.nOut ks) (env : Nat → α) :
     (f.post ks (look f.unit ks).outE j).eval o env = (f.spec ks j).eval o env := by
-  have := (Family.outE_eq h hks).2 j hj
-  simp only [Family.compOK, hk] at this
+  have := (Family.outE_eq h htm hks).2 j hj
+  simp only [Family.compOK, Family.leafOK, hk] at this
   rw [eq_of_beq this]
 
 theorem Family.frac_sound {K : Type} [Field K] [CharZero K] {o : Ops K} (ho : FieldLike o)
-    (h : f.ok look = true) (hk : f.kind = .frac)
+    (h : f.ok look = true) (htm : f.treeMode = false) (hk : f.kind = .frac)
     {ks : List Nat} (hks : ks ∈ f.keys) {j : Nat} (hj : j < f.nOut ks) (env : Nat → K)
     (hall : ∀ a ∈ f.allowed ks, a.divOK o env ∧ a.eval o env ≠ 0) :
     (f.post ks (look f.unit ks).outE j).divOK o env ∧
     (f.post ks (look f.unit ks).outE j).eval o env = (f.spec ks j).eval o env := by
-  have := (Family.outE_eq h hks).2 j hj
-  simp only [Family.compOK, hk, Bool.and_eq_true] at this
+  have := (Family.outE_eq h htm hks).2 j hj
+  simp only [Family.compOK, Family.leafOK, hk, Bool.and_eq_true] at this
   have hd := E.divOK_of_allowed ho _ this.1.2 env hall
   exact ⟨hd, fracEq_sound ho this.1.1 env hd (E.divOK_of_allowed ho _ this.2 env hall)⟩
 
 theorem Family.polyMod_sound {R : Type} [CommRing R] {o : Ops R} (ho : RingLike o)
-    (h : f.ok look = true) (hk : f.kind = .polyMod)
+    (h : f.ok look = true) (htm : f.treeMode = false) (hk : f.kind = .polyMod)
     {ks : List Nat} (hks : ks ∈ f.keys) {j : Nat} (hj : j < f.nOut ks) (env : Nat → R)
     (hh : ∀ p ∈ f.hyps ks, p.1.eval o env = p.2.eval o env) :
     (f.post ks (look f.unit ks).outE j).eval o env = (f.spec ks j).eval o env := by
-  have := (Family.outE_eq h hks).2 j hj
-  simp only [Family.compOK, hk] at this
+  have := (Family.outE_eq h htm hks).2 j hj
+  simp only [Family.compOK, Family.leafOK, hk] at this
   exact polyEqMod_sound ho this env hh
 
 theorem Family.fracMod_sound {K : Type} [Field K] [CharZero K] {o : Ops K} (ho : FieldLike o)
-    (h : f.ok look = true) (hk : f.kind = .fracMod)
+    (h : f.ok look = true) (htm : f.treeMode = false) (hk : f.kind = .fracMod)
     {ks : List Nat} (hks : ks ∈ f.keys) {j : Nat} (hj : j < f.nOut ks) (env : Nat → K)
     (hh : ∀ p ∈ f.hyps ks, p.1.eval o env = p.2.eval o env)
     (hall : ∀ a ∈ f.allowed ks, a.divOK o env ∧ a.eval o env ≠ 0) :
     (f.post ks (look f.unit ks).outE j).divOK o env ∧
     (f.post ks (look f.unit ks).outE j).eval o env = (f.spec ks j).eval o env := by
-  have := (Family.outE_eq h hks).2 j hj
-  simp only [Family.compOK, hk, Bool.and_eq_true] at this
+  have := (Family.outE_eq h htm hks).2 j hj
+  simp only [Family.compOK, Family.leafOK, hk, Bool.and_eq_true] at this
   have hd := E.divOK_of_allowed ho _ this.1.2 env hall
   exact ⟨hd, fracEqMod_sound ho this.1.1 env hh hd (E.divOK_of_allowed ho _ this.2 env hall)⟩
 
 /-- for families that compare the outputs themselves (`post` = identity) -/
-theorem Family.out_eval {α : Type} (o : Ops α) (h : f.ok look = true)
+theorem Family.out_eval {α : Type} (o : Ops α) (h : f.ok look = true) (htm : f.treeMode = false)
     {ks : List Nat} (hks : ks ∈ f.keys) (i : Nat) (env : Nat → α) :
     ((look f.unit ks).out i).eval o env = ((look f.unit ks).outE i).eval o env := by
-  rw [(Family.outE_eq h hks).1 i]; rfl
+  rw [(Family.outE_eq h htm hks).1 i]; rfl
+
+/-! ### tree mode: units that branch -/
+
+theorem condOK_sound {R : Type} [CommRing R] {o : Ops R} (ho : RingLike o) {c c' : C}
+    (h : condOK c c' = true) (env : Nat → R) : c.eval o env = c'.eval o env := by
+  induction c generalizing c' with
+  | lt a b =>
+    cases c' with
+    | lt a' b' =>
+      simp only [condOK, Bool.and_eq_true] at h
+      simp only [C.eval, polyEq_sound' ho h.1 env, polyEq_sound' ho h.2 env]
+    | _ => simp [condOK] at h
+  | le a b =>
+    cases c' with
+    | le a' b' =>
+      simp only [condOK, Bool.and_eq_true] at h
+      simp only [C.eval, polyEq_sound' ho h.1 env, polyEq_sound' ho h.2 env]
+    | _ => simp [condOK] at h
+  | eq a b =>
+    cases c' with
+    | eq a' b' =>
+      simp only [condOK, Bool.and_eq_true] at h
+      simp only [C.eval, polyEq_sound' ho h.1 env, polyEq_sound' ho h.2 env]
+    | _ => simp [condOK] at h
+  | isnan a =>
+    cases c' with
+    | isnan a' => simp only [condOK] at h; rw [eq_of_beq h]
+    | _ => simp [condOK] at h
+  | isinf a =>
+    cases c' with
+    | isinf a' => simp only [condOK] at h; rw [eq_of_beq h]
+    | _ => simp [condOK] at h
+  | not c ih =>
+    cases c' with
+    | not c' => simp only [condOK] at h; simp only [C.eval, ih h]
+    | _ => simp [condOK] at h
+  | and a b iha ihb =>
+    cases c' with
+    | and a' b' => simp only [condOK, Bool.and_eq_true] at h; simp only [C.eval, iha h.1, ihb h.2]
+    | _ => simp [condOK] at h
+  | or a b iha ihb =>
+    cases c' with
+    | or a' b' => simp only [condOK, Bool.and_eq_true] at h; simp only [C.eval, iha h.1, ihb h.2]
+    | _ => simp [condOK] at h
+
+/-- same decisions, same leaves (in the sense of `leafOK`, assumed sound under `env`) ⇒ same value -/
+theorem treeOK_sound {R : Type} [CommRing R] {o : Ops R} (ho : RingLike o) {leafOK : E → E → Bool}
+    (env : Nat → R) (hleaf : ∀ a b, leafOK a b = true → a.eval o env = b.eval o env)
+    {t s : Tree} (h : treeOK leafOK t s = true) : t.eval o env = s.eval o env := by
+  induction t generalizing s with
+  | leaf a =>
+    cases s with
+    | leaf b => simp only [treeOK] at h; exact hleaf _ _ h
+    | _ => simp [treeOK] at h
+  | branch c t f iht ihf =>
+    cases s with
+    | branch c' t' f' =>
+      simp only [treeOK, Bool.and_eq_true] at h
+      simp only [Tree.eval, condOK_sound ho h.1.1 env, iht h.1.2, ihf h.2]
+    | _ => simp [treeOK] at h
+
+theorem Family.tree_elim (h : f.ok look = true) (htm : f.treeMode = true)
+    {ks : List Nat} (hks : ks ∈ f.keys) {j : Nat} (hj : j < f.nOut ks) :
+    treeOK (f.leafOK ks j) ((look f.unit ks).out j) (f.specT ks j) = true := by
+  simp only [Family.ok, List.all_eq_true] at h
+  have := h ks hks
+  unfold Family.okAt at this
+  rw [Bool.and_eq_true] at this
+  replace this := this.2
+  rw [if_pos htm] at this
+  simp only [Bool.and_eq_true, List.all_eq_true, List.mem_range] at this
+  exact this.2 j hj
+
+theorem Family.tree_poly_sound {R : Type} [CommRing R] {o : Ops R} (ho : RingLike o)
+    (h : f.ok look = true) (htm : f.treeMode = true) (hk : f.kind = .poly)
+    {ks : List Nat} (hks : ks ∈ f.keys) {j : Nat} (hj : j < f.nOut ks) (env : Nat → R) :
+    ((look f.unit ks).out j).eval o env = (f.specT ks j).eval o env := by
+  refine treeOK_sound ho env ?_ (Family.tree_elim h htm hks hj)
+  intro a b hab
+  simp only [Family.leafOK, hk] at hab
+  exact polyEq_sound' ho hab env
+
+theorem Family.tree_syn_sound {R : Type} [CommRing R] {o : Ops R} (ho : RingLike o)
+    (h : f.ok look = true) (htm : f.treeMode = true) (hk : f.kind = .syn)
+    {ks : List Nat} (hks : ks ∈ f.keys) {j : Nat} (hj : j < f.nOut ks) (env : Nat → R) :
+    ((look f.unit ks).out j).eval o env = (f.specT ks j).eval o env := by
+  refine treeOK_sound ho env ?_ (Family.tree_elim h htm hks hj)
+  intro a b hab
+  simp only [Family.leafOK, hk] at hab
+  rw [eq_of_beq hab]
+
+theorem Family.tree_polyMod_sound {R : Type} [CommRing R] {o : Ops R} (ho : RingLike o)
+    (h : f.ok look = true) (htm : f.treeMode = true) (hk : f.kind = .polyMod)
+    {ks : List Nat} (hks : ks ∈ f.keys) {j : Nat} (hj : j < f.nOut ks) (env : Nat → R)
+    (hh : ∀ p ∈ f.hyps ks, p.1.eval o env = p.2.eval o env) :
+    ((look f.unit ks).out j).eval o env = (f.specT ks j).eval o env := by
+  refine treeOK_sound ho env ?_ (Family.tree_elim h htm hks hj)
+  intro a b hab
+  simp only [Family.leafOK, hk] at hab
+  exact polyEqMod_sound ho hab env hh
+
+theorem Family.tree_frac_sound {K : Type} [Field K] [CharZero K] {o : Ops K} (ho : FieldLike o)
+    (h : f.ok look = true) (htm : f.treeMode = true) (hk : f.kind = .frac)
+    {ks : List Nat} (hks : ks ∈ f.keys) {j : Nat} (hj : j < f.nOut ks) (env : Nat → K)
+    (hall : ∀ a ∈ f.allowed ks, a.divOK o env ∧ a.eval o env ≠ 0) :
+    ((look f.unit ks).out j).eval o env = (f.specT ks j).eval o env := by
+  refine treeOK_sound ho.toRingLike env ?_ (Family.tree_elim h htm hks hj)
+  intro a b hab
+  simp only [Family.leafOK, hk, Bool.and_eq_true] at hab
+  exact fracEq_sound ho hab.1.1 env (E.divOK_of_allowed ho _ hab.1.2 env hall)
+    (E.divOK_of_allowed ho _ hab.2 env hall)
+
+theorem Family.tree_fracMod_sound {K : Type} [Field K] [CharZero K] {o : Ops K} (ho : FieldLike o)
+    (h : f.ok look = true) (htm : f.treeMode = true) (hk : f.kind = .fracMod)
+    {ks : List Nat} (hks : ks ∈ f.keys) {j : Nat} (hj : j < f.nOut ks) (env : Nat → K)
+    (hh : ∀ p ∈ f.hyps ks, p.1.eval o env = p.2.eval o env)
+    (hall : ∀ a ∈ f.allowed ks, a.divOK o env ∧ a.eval o env ≠ 0) :
+    ((look f.unit ks).out j).eval o env = (f.specT ks j).eval o env := by
+  refine treeOK_sound ho.toRingLike env ?_ (Family.tree_elim h htm hks hj)
+  intro a b hab
+  simp only [Family.leafOK, hk, Bool.and_eq_true] at hab
+  exact fracEqMod_sound ho hab.1.1 env hh (E.divOK_of_allowed ho _ hab.1.2 env hall)
+    (E.divOK_of_allowed ho _ hab.2 env hall)
+
+/-- **definedness** of a guarded family: in every ordered-field semantics, for every environment, the
+    leaf the code selects evaluates `sqrt`/`acos`/`asin`/`log` only inside their domains -/
+theorem Family.guard_sound {K : Type} [Field K] [LinearOrder K] [IsStrictOrderedRing K] {o : Ops K}
+    (ho : OrderedLike o) (h : f.ok look = true) (hg : f.guard = true)
+    {ks : List Nat} (hks : ks ∈ f.keys) {j : Nat} (hj : j < f.nRaw ks) (env : Nat → K) :
+    (((look f.unit ks).out j).select o env).Defined o env := by
+  simp only [Family.ok, List.all_eq_true] at h
+  have := h ks hks
+  unfold Family.okAt at this
+  rw [Bool.and_eq_true] at this
+  have hg' := this.1
+  simp only [hg, Bool.not_true, Bool.false_or, List.all_eq_true, List.mem_range] at hg'
+  exact Tree.guarded_sound ho env _ (path := []) (by intro cb hcb; simp at hcb) (hg' j hj)
 
 end Glm
